@@ -62,7 +62,7 @@ expect('phases: inserted species owned by another phase', 'Trace_Phases', mut(ev
 expect('phases: copy returns other names', 'Trace_Phases', mut(ev, lambda e: e[5].__setitem__('ret', ['s2'])), 'CopySnapshot')
 expect('phases: editing the copy edits the phase', 'Trace_Phases', mut(ev, lambda e: e[5].__setitem__('after', ['s2', 's3', 's1', 'zz'])), 'CopyDetached')
 expect('phases: a live object disappears', 'Trace_Phases', mut(ev, lambda e: e[6].__setitem__('names', e[6]['names'][1:])), 'LiveSet')
-expect('phases: one recorded call deleted', 'Trace_Phases', ev[:2] + ev[3:], 'Effect')
+expect('phases: one recorded call deleted (p2 then differs at the next call)', 'Trace_Phases', ev[:2] + ev[3:], 'Frame')
 
 # ---------------------------------------------------------------- reactor
 data, _ = core.tlc_cases('MC_ReactorYaml', 'MC_ReactorYaml_cases')
